@@ -1354,11 +1354,6 @@ class MatlabWrapper(CheckMixin, FormatMixin):
             method_name = method.to_cpp()
             obj_start = 'obj->'
 
-            if method.instantiations:
-                # method_name += '<{}>'.format(
-                #     self._format_type_name(method.instantiations))
-                method = method.to_cpp()
-
         elif isinstance(method, instantiator.InstantiatedStaticMethod):
             method_name = self._format_static_method(method, '::')
             method_name += method.original.name
